@@ -140,9 +140,52 @@ def nice_pins(shape):
     return pins
 
 
-def witness_models(eng, neg, names, pins=(), timeout=20000, lemma=False, extra=()):
+def corner_inputs(names, count=160, seed=0):
+    """Concrete candidate inputs biased to corners of the domain (sigma = 0 or tiny, equal mus,
+    large mismatches, tau = 0 ...).  Used ONLY to find a replayable witness after the solver has
+    answered `sat` on the uninterpreted abstraction (whose own model may assign impossible values
+    to exp/Phi); never to decide that a property holds."""
+    import random
+    rng = random.Random(seed)
+    out = []
+    for k in range(count):
+        b = rng.choice([25 / 6, 25 / 6, 1.0, 0.01, 300.0])
+        eq_mu = rng.random() < 0.4
+        sg_mode = rng.choice(['zero', 'tiny', 'mid', 'big', 'mix', 'mix'])
+        mu0 = rng.uniform(-5 * b, 5 * b)
+        e = {}
+        for n in names:
+            if n == 'beta':
+                e[n] = b
+            elif n == 'kappa':
+                e[n] = rng.choice([1e-4, 1e-4, 1e-2, 1e-6])
+            elif n in ('tau', 't', 'T0', 't1'):
+                e[n] = rng.choice([0.0, b / 50, b / 50, b, 5 * b])
+            elif n.startswith('mu'):
+                e[n] = mu0 if eq_mu else rng.choice([mu0, rng.uniform(-3 * b, 3 * b), rng.uniform(-20 * b, 20 * b)])
+            elif n.startswith('sg'):
+                m = sg_mode if sg_mode != 'mix' else rng.choice(['tiny', 'mid', 'big'])
+                e[n] = {'zero': 0.0, 'tiny': 1e-4 * b, 'mid': b * rng.uniform(0.3, 2.5), 'big': 10 * b}[m]
+            elif n == 'd':
+                e[n] = b * rng.choice([1e-3, 0.5, 3.0, 15.0])
+            elif n == 'e':
+                e[n] = b * rng.choice([-8.0, -1.0, -0.1, 0.1, 1.0, 8.0])
+            elif n == 'c':
+                e[n] = rng.uniform(-5 * b, 5 * b)
+            elif n == 'k':
+                e[n] = rng.choice([1e-3, 0.5, 2.0, 1e3])
+            elif n == 's':
+                e[n] = rng.uniform(-5 * b, 5 * b)
+            else:
+                e[n] = rng.uniform(0, 1)
+        out.append(e)
+    return out
+
+
+def witness_models(eng, neg, names, pins=(), timeout=20000, lemma=False, extra=(), corners=True, alive_first=True):
     """candidate input assignments for a `sat` obligation: first with the
-    configuration pinned to the library defaults (robust, realistic), then free."""
+    configuration pinned to the library defaults (robust, realistic), then free;
+    the last candidate also carries a batch of corner points (see corner_inputs)."""
     from sx.core import model_inputs
     out = []
     tried = []
@@ -156,6 +199,12 @@ def witness_models(eng, neg, names, pins=(), timeout=20000, lemma=False, extra=(
                 out.append(model_inputs(m, names))
             except Exception:  # noqa: BLE001
                 pass
+    if out and corners:
+        # shadow points that satisfy the path are natural candidates too
+        alt = [{n: eng.env[k][n] for n in names if n in eng.env[k]} for k, al in enumerate(eng.alive) if al]
+        alt = [a for a in alt if len(a) == len(names)]
+        out[-1] = dict(out[-1])
+        out[-1]['__alt__'] = alt + corner_inputs(names)
     return out
 
 
